@@ -34,6 +34,15 @@ class Counter:
             raise CounterError('counter failed', arg)
         if kind == 'attr':
             raise AttributeError('no such thing', arg)
+        # types that the manager machinery itself raises or catches around its connections
+        if kind == 'eof':
+            raise EOFError('user eof', arg)
+        if kind == 'timeout':
+            raise TimeoutError('user timeout', arg)
+        if kind == 'stopiter':
+            raise StopIteration(arg)
+        if kind == 'oserror':
+            raise ConnectionResetError('user reset', arg)
         raise ZeroDivisionError(arg)
 
     def echo(self, x):
